@@ -7,6 +7,24 @@ props = [json.loads(l) for l in open(os.path.join(HERE, "properties.jsonl"))]
 # id -> (technique, level text, level note, design ref)
 CLAIMED = {}
 exec(open(os.path.join(HERE, "tools", "claims.py")).read())
+# a property module may carry its own claim: CLAIM = {"technique":..., "text":..., "note":...} (pure literal)
+import ast, glob
+for f in sorted(glob.glob(os.path.join(HERE, "harness", "props", "c[0-9][0-9].py"))):
+    pid = os.path.basename(f)[:-3].upper()
+    if pid in NOT_CLAIMED:
+        continue
+    try:
+        tree = ast.parse(open(f).read())
+    except SyntaxError:
+        continue
+    for node in tree.body:
+        if isinstance(node, ast.Assign) and any(isinstance(t, ast.Name) and t.id == "CLAIM" for t in node.targets):
+            try:
+                c = ast.literal_eval(node.value)
+            except Exception:
+                continue
+            if all(k in c for k in ("technique", "text", "note")) and os.path.exists(os.path.join(HERE, "coq", "props", pid + ".v")):
+                CLAIMED.setdefault(pid, c)
 
 checks, na = [], []
 for p in props:
